@@ -362,3 +362,42 @@ package syntax
 //@   ensures @complete len(name) <= 255 && name != "" && name != "." && name != ".." && (forall i :: 0 <= i && i < len(name) ==> name[i] != '/' && name[i] != 0) ==> isnil(result)
 //@   loop 1 invariant 0 <= strpos() && strpos() <= len(name)
 //@   loop 1 invariant forall i :: 0 <= i && i < strpos() ==> name[i] != '/' && name[i] != 0
+
+// ---------------------------------------------------------------- C09 / C16 string literals written by the formatter
+
+// The bytes quoteString writes, read by the MRO string-literal decoder (spec automaton
+// mrostr: the escapes the tokenizer's string rule admits), are exactly one literal that
+// denotes s.  Ghost monitor stepped at every mustWriteByte / mustWriteString.
+//@ func syntax.quoteString property C09 C16
+//@   mode bytes
+//@   uses mrostr utf8
+//@   monitor mrostr sink w expects s
+//@   requires validUTF8(s)
+//@   ensures @accepts mon(w, q) == mrostr_DONE
+//@   ensures @exact mon(w, k) == len(s)
+//@   loop 1 invariant 0 <= start && start <= i && i <= len(s)
+//@   loop 1 invariant mon(w, q) == mrostr_RUN && mon(w, k) == start
+//@   loop 1 invariant forall j :: start <= j && j < i ==> mrostr_plain(s[j])
+//@   loop 1 invariant validUTF8(s[i:])
+//@   loop 1 decreases len(s) - i
+
+// Output primitives as ghost events (outside a writer monitor): the last string / buffer
+// handed to the writer.
+//@ func syntax.mustWriteString
+//@   effect wrotestr w := s
+
+//@ func syntax.mustWrite
+//@   effect wrotebase w := base(b)
+
+// An integer literal is written as the decimal numeral of its value.
+//@ func syntax.IntExp.format property C09 C16
+//@   requires e != nil
+//@   ensures ghost(wrotestr)[w] == fn("strconv.FormatInt", e.Value, 10)
+
+// A float literal is written as strconv's shortest numeral that reads back as exactly
+// the same float64: AppendFloat(_, e.Value, 'g', -1, 64), handed to the writer unchanged.
+//@ func syntax.FloatExp.format property C09 C16
+//@   requires e != nil
+//@   ensures @buffer ghost(wrotebase)[w] == ghost(numbase)[0]
+//@   ensures @value ghost(numfloat)[0] == e.Value
+//@   ensures @shortest64 ghost(numfmt)[0] == 64 * 1000000 + 0 * 1000 + 103
